@@ -71,7 +71,7 @@ func runC04(c *eng.Ctx) {
 				fn := eng.CallArgs(g.Instr.(*ssa.Call))[1]
 				if eng.DependsOn(fn, func(x ssa.Value) bool {
 					r, ok := x.(*ssa.Range)
-					return ok && eng.SameValue(r.X, a[0])
+					return ok && (eng.SameValue(r.X, a[0]) || eng.DependsOn(r.X, func(y ssa.Value) bool { return y == a[0] || eng.SameValue(y, a[0]) }))
 				}) {
 					fromSame = true
 				}
@@ -157,8 +157,18 @@ func runC04(c *eng.Ctx) {
 	// ---- 5c. the reference key written by the target is the key it is looked up / deleted by --------------------------------------
 	c.Rule("SYMMETRY", famT+"{reference key = (source store, source family id, file)}", func() {
 		isSrcID := func(v ssa.Value, src ssa.Value) bool {
-			cl, ok := v.(*ssa.Call)
-			return ok && cl.Common().IsInvoke() && cl.Common().Method.Name() == "ID" && cl.Common().Value == src
+			direct := func(x ssa.Value) bool {
+				cl, ok := x.(*ssa.Call)
+				return ok && cl.Common().IsInvoke() && cl.Common().Method.Name() == "ID" && cl.Common().Value == src
+			}
+			if direct(v) {
+				return true
+			}
+			// the id may travel through a helper's parameter; nothing else (no other call) may be mixed in
+			if _, isParam := v.(*ssa.Parameter); isParam {
+				return eng.DependsOn(v, direct)
+			}
+			return false
 		}
 		fromSrcStore := func(v ssa.Value, src ssa.Value) bool {
 			return eng.DependsOn(v, func(x ssa.Value) bool {
